@@ -2079,6 +2079,10 @@ func (t *tScreen) disengage() {
 	// wait for everything to shut down
 	t.wg.Wait()
 
+	// the rest touches the cell buffer and the output buffer
+	t.Lock()
+	defer t.Unlock()
+
 	// shutdown the screen and disable special modes (e.g. mouse and bracketed paste)
 	ti := t.ti
 	t.cells.Resize(0, 0)
